@@ -1,0 +1,119 @@
+//! Simulation hooks, compiled only with `--cfg iwe_verif`.
+//!
+//! With the cfg off this file is not part of the crate. With the cfg on but no
+//! hooks installed on the calling thread (the default) every function below is a
+//! thread-local `None` check and the server behaves exactly as shipped.
+//!
+//! A simulator installs an implementation of [`Hooks`] on the thread that runs
+//! `main_loop`; request workers spawned through [`spawn`] inherit it.
+
+use std::cell::RefCell;
+use std::sync::Arc;
+use std::thread::JoinHandle;
+
+#[derive(Clone, Copy, Debug, PartialEq, Eq, Hash, PartialOrd, Ord)]
+pub enum Point {
+    /// message loop is about to wait for the next message
+    LoopIdle,
+    /// message loop finished handling one message (panicked or not)
+    LoopHandled,
+    /// message loop is about to return
+    LoopExit,
+    /// request worker thread exists but has not started handling its request
+    WorkerStart,
+    /// a thread is about to write a message to the client
+    BeforeSend,
+    /// a thread has written a message to the client
+    AfterSend,
+    /// request worker finished; everything it captured has been dropped
+    WorkerExit,
+}
+
+pub type ThreadId = u64;
+
+pub trait Hooks: Send + Sync {
+    /// Called by thread `tid` when it reaches `point`. May block (park) the caller.
+    fn point(&self, tid: ThreadId, point: Point);
+    /// Called on the parent before a worker is spawned; returns the id of the child.
+    fn spawning(&self, parent: ThreadId) -> ThreadId;
+    /// Called on the parent after the worker thread was started; returns once the
+    /// child is parked at `WorkerStart`.
+    fn spawned(&self, parent: ThreadId, child: ThreadId);
+    /// A panic was caught on the message loop and the message dropped.
+    fn note_panic(&self, tid: ThreadId, message: &str);
+}
+
+thread_local! {
+    static CURRENT: RefCell<Option<(Arc<dyn Hooks>, ThreadId)>> = const { RefCell::new(None) };
+}
+
+fn current() -> Option<(Arc<dyn Hooks>, ThreadId)> {
+    CURRENT.with(|c| c.borrow().clone())
+}
+
+/// Install `hooks` on the calling thread under the id `tid`.
+pub fn install(hooks: Arc<dyn Hooks>, tid: ThreadId) {
+    CURRENT.with(|c| *c.borrow_mut() = Some((hooks, tid)));
+}
+
+/// Remove the hooks from the calling thread.
+pub fn uninstall() {
+    CURRENT.with(|c| *c.borrow_mut() = None);
+}
+
+pub fn point(point: Point) {
+    if let Some((hooks, tid)) = current() {
+        hooks.point(tid, point);
+    }
+}
+
+pub fn note_panic(message: &str) {
+    if let Some((hooks, tid)) = current() {
+        hooks.note_panic(tid, message);
+    }
+}
+
+/// Guard whose `Drop` reports a point; lets a hook run after a tail expression.
+pub struct PointOnDrop(pub Point);
+
+impl Drop for PointOnDrop {
+    fn drop(&mut self) {
+        point(self.0);
+    }
+}
+
+struct ExitOnDrop(Arc<dyn Hooks>, ThreadId);
+
+impl Drop for ExitOnDrop {
+    fn drop(&mut self) {
+        self.0.point(self.1, Point::WorkerExit);
+    }
+}
+
+/// `std::thread::spawn` when no hooks are installed on the calling thread.
+/// Otherwise the child inherits the hooks, parks at `WorkerStart` before running
+/// `f`, and reports `WorkerExit` after `f` (and everything it captured) is gone,
+/// whether it returned or panicked.
+pub fn spawn<F, T>(f: F) -> JoinHandle<()>
+where
+    F: FnOnce() -> T + Send + 'static,
+    T: Send + 'static,
+{
+    match current() {
+        None => std::thread::spawn(move || {
+            let _ = f();
+        }),
+        Some((hooks, parent)) => {
+            let child = hooks.spawning(parent);
+            let child_hooks = hooks.clone();
+            let handle = std::thread::spawn(move || {
+                install(child_hooks.clone(), child);
+                let _exit = ExitOnDrop(child_hooks.clone(), child);
+                child_hooks.point(child, Point::WorkerStart);
+                let _ = f();
+            });
+            hooks.spawned(parent, child);
+            handle
+        }
+    }
+}
